@@ -23,9 +23,14 @@ Qed.
 
 Lemma entry_eqb_spec a b : entry_eqb a b = true <-> a = b.
 Proof.
-  unfold entry_eqb. rewrite !andb_true_iff, !oeqb_Z_spec, oeqb_S_spec.
+  assert (E : entry_eqb a b =
+    oeqb Z.eqb (e_process a) (e_process b) && (oeqb Z.eqb (e_iter a) (e_iter b) && (oeqb Z.eqb (e_num_restarts a) (e_num_restarts b) &&
+    (oeqb Z.eqb (e_level a) (e_level b) && (oeqb Z.eqb (e_sweep a) (e_sweep b) && (oeqb Z.eqb (e_process_sweeper a) (e_process_sweeper b) &&
+    (oeqb String.eqb (e_type a) (e_type b) && oeqb Z.eqb (e_time a) (e_time b)))))))).
+  { unfold entry_eqb. repeat match goal with |- context [if ?c then _ else false] => destruct c; simpl; auto end. }
+  rewrite E, !andb_true_iff, !oeqb_Z_spec, oeqb_S_spec.
   destruct a, b; simpl. split.
-  - intros [[[[[[[-> ->] ->] ->] ->] ->] ->] ->]. reflexivity.
+  - intros [-> [-> [-> [-> [-> [-> [-> ->]]]]]]]. reflexivity.
   - intro H. inversion H. repeat split.
 Qed.
 
@@ -590,7 +595,11 @@ Lemma is_marker_spec k : is_marker k = true <-> e_type k = Some recomputed_tag.
 Proof. apply oeqb_S_spec. Qed.
 
 Lemma same_tt_spec a b : same_tt a b = true <-> e_time a = e_time b /\ e_type a = e_type b.
-Proof. unfold same_tt. rewrite andb_true_iff, oeqb_Z_spec, oeqb_S_spec. reflexivity. Qed.
+Proof.
+  unfold same_tt. destruct (oeqb String.eqb (e_type a) (e_type b)) eqn:E.
+  - apply oeqb_S_spec in E. rewrite oeqb_Z_spec. tauto.
+  - split; [discriminate|]. intros [_ H]. apply oeqb_S_spec in H. congruence.
+Qed.
 
 Lemma markedb_spec d t : markedb d t = true <-> marked ztruthy d t.
 Proof.
@@ -1234,3 +1243,61 @@ Example logwork_stale_key :
   let h := logwork_post_step s 7 (hook_refresh (Some (Some 0)) hook_init) in
   map (fun kv => e_num_restarts (fst kv)) (h_stats h) = [Some 0] /\ sv_nr s = Some 3.
 Proof. vm_compute. auto. Qed.
+
+(* ====================================================================== the economical validator *)
+Lemma existsb_filter {A} (p f : A -> bool) l : existsb f (filter p l) = existsb (fun x => p x && f x) l.
+Proof.
+  induction l as [|a l IH]; simpl; auto. destruct (p a); simpl; rewrite IH; reflexivity.
+Qed.
+
+Lemma existsb_ext' {A} (f g : A -> bool) l : (forall x, f x = g x) -> existsb f l = existsb g l.
+Proof. intro H. induction l as [|a l IH]; simpl; auto. rewrite H, IH. reflexivity. Qed.
+
+Lemma existsb_map' {A B} (f : B -> bool) (g : A -> B) l : existsb f (map g l) = existsb (fun x => f (g x)) l.
+Proof. induction l as [|a l IH]; simpl; auto. rewrite IH. reflexivity. Qed.
+
+Lemma markedb_m_eq d t : markedb_m (filter (fun kv => is_marker (fst kv)) d) t = markedb d t.
+Proof.
+  unfold markedb_m, markedb. rewrite existsb_filter. apply existsb_ext'. intro m.
+  rewrite existsb_filter.
+  rewrite (existsb_ext' (fun x : entry * Z => is_marker (fst x) &&
+             (if oeqb Z.eqb (e_time (fst x)) (e_time (fst m)) then nr (fst m) <? nr (fst x) else false))
+            (fun m' => is_marker (fst m') && oeqb Z.eqb (e_time (fst m')) (e_time (fst m)) && (nr (fst m) <? nr (fst m')))).
+  - destruct (is_marker (fst m)); simpl; auto. destruct (ztruthy (snd m)); simpl; auto.
+  - intro x. destruct (is_marker (fst x)); simpl; auto.
+Qed.
+
+Theorem check_accepted_fast_sound acc d : check_accepted_fast acc d = true -> check_accepted acc d = true.
+Proof.
+  unfold check_accepted_fast, check_accepted. destruct (regularb d); [|discriminate]. simpl.
+  rewrite forallb_forall. intro H.
+  assert (H' : forall kv, In kv d ->
+     (if is_marker (fst kv) then true
+      else if memb (fst kv) acc then
+        if forallb (fun kv' => if same_tt (fst kv') (fst kv) then nr (fst kv') <=? nr (fst kv) else true) d
+        then negb (markedb d (e_time (fst kv))) else false
+      else
+        if existsb (fun kv' => if memb (fst kv') acc then (if same_tt (fst kv') (fst kv) then nr (fst kv) <? nr (fst kv') else false) else false) d
+        then true else markedb d (e_time (fst kv))) = true).
+  { intros kv Hin. specialize (H (memb (fst kv) acc, kv)). simpl in H. rewrite markedb_m_eq in H.
+    assert (Hx := H ltac:(apply in_map_iff; exists kv; auto)). clear H. revert Hx.
+    destruct (is_marker (fst kv)); auto. destruct (memb (fst kv) acc); auto.
+    rewrite existsb_map'. simpl. auto. }
+  clear H. rewrite !andb_true_iff, !forallb_forall. repeat split; intros kv Hin; specialize (H' kv Hin);
+    destruct (is_marker (fst kv)); simpl; auto; destruct (memb (fst kv) acc) eqn:Ea; simpl; auto.
+  - destruct (forallb _ d) eqn:Ef; [|discriminate]. rewrite <- Ef.
+    clear. induction d as [|a l IH]; simpl; auto. rewrite IH. try (destruct (same_tt (fst a) (fst kv)); reflexivity).
+  - destruct (existsb _ d) eqn:Ee.
+    + rewrite orb_true_iff. left. rewrite <- Ee. clear. induction d as [|a l IH]; simpl; auto. rewrite IH.
+      destruct (memb (fst a) acc); simpl; auto; try (destruct (same_tt (fst a) (fst kv)); reflexivity).
+    + rewrite H'. apply orb_true_r.
+  - destruct (forallb _ d); [exact H'|discriminate].
+Qed.
+
+Theorem check_accepted_fast_filter acc d :
+  check_accepted_fast acc d = true ->
+  forall s t b, s <> recomputed_tag ->
+  exists r, filter_stats ztruthy d (kw_tt (Some s) t) (Some b) = Some r /\
+    (exists P, r = filter P d) /\
+    forall kv, In kv r <-> In kv d /\ matchesP (kw_tt (Some s) t) (fst kv) /\ In (fst kv) acc.
+Proof. intro H. apply check_accepted_sound. apply check_accepted_fast_sound. exact H. Qed.
